@@ -33,7 +33,10 @@ def snip_case(draw):
     frac = 0
     if n < N - i and draw(st.booleans()):
         frac = draw(st.integers(1, 1023))
-    return {"sig": spec, "form": form, "i": i, "frac": frac, "n": n, "dur_unit": draw(st.sampled_from(["s", "ms", "us", "ns", "min"]))}
+    tiny = 0.0
+    if n < N - i and form in ("float", "int") and draw(st.integers(0, 9)) == 0:
+        tiny = draw(st.sampled_from([1e-9, 1e-12, 3e-9, 1e-7]))  # a start a hair after a whole sample
+    return {"sig": spec, "form": form, "i": i, "frac": frac, "n": n, "dur_unit": draw(st.sampled_from(["s", "ms", "us", "ns", "min"])), "tiny": tiny}
 
 
 def to_arg(case, z):
@@ -41,6 +44,9 @@ def to_arg(case, z):
     t = F(case["i"]) + F(case["frac"], 1024)
     form = case["form"]
     rate = rate_hz(z)
+    if case.get("tiny") and form in ("int", "float"):
+        tf = float(t) + case["tiny"]
+        return tf, F(tf), tf == int(tf)
     if form == "int":
         if case["frac"]:
             form = "float"
@@ -139,6 +145,44 @@ def run_snip(case, stt):
 
 
 @st.composite
+def hist_case(draw):
+    base = draw(snip_case())
+    steps = [draw(st.sampled_from(["same", "n", "frac", "form", "rate", "data", "dtype"])) for _ in range(draw(st.integers(1, 4)))]
+    return {"base": base, "steps": steps, "pick": draw(st.integers(0, 10**6))}
+
+
+def run_hist(case, stt):
+    import copy
+
+    cur = copy.deepcopy(case["base"])
+    run_snip(cur, stt)
+    k = case["pick"]
+    for i, step in enumerate(case["steps"]):
+        cur = copy.deepcopy(cur)
+        sg = cur["sig"]
+        N = sg["n"]
+        if step == "n":
+            cur["n"] = (cur["n"] + 1 + (k + i) % 3) % (N - cur["i"] + 1)
+            if cur["n"] >= N - cur["i"]:
+                cur["frac"] = 0
+                cur["tiny"] = 0.0
+        elif step == "frac":
+            cur["frac"] = [0, 512, 1, 777][(k + i) % 4] if cur["n"] < N - cur["i"] else 0
+        elif step == "form":
+            cur["form"] = ["int", "float", "dur", "dt"][(k + i) % 4]
+        elif step == "rate":
+            sg["sr"] = dict(sg["sr"], v=sg["sr"]["v"] * [2.0, 0.5, 3.0][(k + i) % 3])
+        elif step == "data":
+            sg["data"] = {"kind": "noise", "seed": (k + i) % 997}
+        elif step == "dtype":
+            allowed = [d for d in G.CLASS_DTYPES[sg["cls"]] if d in FLOATS]
+            sg["dtype"] = allowed[(k + i) % len(allowed)]
+        run_snip(cur, stt)
+        stt.label("hist_" + step)
+    stt.nt(len(case["steps"]) >= 2)
+
+
+@st.composite
 def long_case(draw):
     N = draw(st.sampled_from([1500, 2048, 3001, 4096, 5000]))
     spec = draw(G.signal_spec(classes=["Signal", "BasebandSignal", "IntensitySignal"], nmin=N, nmax=N, dtypes=FLOATS, nchan_max=2, max_trailing=0,
@@ -193,6 +237,9 @@ SUBS = [
         "every class, N 1..128, f4/f8/c8/c16, with/without start time, rates mHz..GHz in every unit; t as int / float (whole or k/1024 "
         "fractional) / duration in s..min / k*dt / absolute Time; n 0..N incl. requests ending at the last sample; non-trivial = fractional t, "
         "or t+n == N, or n in {0, N}, or a duration/Time form", quick=4000, thorough=80000, pieces_quick=6),
+    Sub("call_history", hist_case(), run_hist,
+        "2..5 snippet calls in one process, one ingredient changed per step (or none); each checked as above; non-trivial = >= 2 steps", quick=500,
+        thorough=8000, pieces_quick=4),
     Sub("long_signals", long_case(), run_snip,
         "N in {1500..5000}, short and long snippets anywhere in the signal, fractional starts (numpy.fft complex128 interpolation of the WHOLE "
         "signal as reference); non-trivial as above", quick=300, thorough=5000, pieces_quick=4),
